@@ -1,22 +1,32 @@
-"""C12 translator plugin: which memo layers do `UnitRegistry.add/modify/remove` invalidate?
+"""C12 translator plugin: which memo layers do `UnitRegistry.add/modify/remove` invalidate, and do they
+do so UNCONDITIONALLY?
 
-Regenerates `lean/UnytModel/Generated/RegistryC12Cfg.lean` (the configuration `Cfg` the C12
-registry state machine is run and proved with) from the LIVE source:
+Regenerates `lean/UnytModel/Generated/RegistryC12Cfg.lean` (the configuration `Cfg` the C12 registry
+state machine is run and proved with, plus the structural facts the proofs assume) from the LIVE source:
 
-* behaviourally, one single step at a time (never a history): after a look-up of a prefixed
-  and of a compound string, does each kind of edit leave those strings in
-  `_unit_object_cache`, does it leave the written-back prefixed entry in `lut`, and does
-  `unit_system_id` depend on written-back entries;
-* syntactically (`ast`), which of the three edit methods contain a statement that clears
-  `_unit_object_cache` / deletes from `lut` in a loop (directly or through a `self.<helper>()`);
-  recorded for the notes and cross-checked against the behavioural answer.
-
-A flag is `true` only when every edit kind shows the repaired behaviour; a half-applied fix
-keeps the flag `false`, the model then no longer matches the code and the correspondence run
-says so.
+* behaviourally, one single edit at a time (never a history), over a MATRIX of prepared states ×
+  edit forms: states differ in the kind of symbol edited (prefixable / non-prefixable with an offset),
+  in the route that wrote the derived entry back (`Unit(...)`, `in`, `[]`), in what is cached (prefixed,
+  compound, power, the symbol itself) and in whether the edited symbol is the one the derived entry
+  hangs off; edit forms are add (new data / identical data), modify by float (new value / SAME value /
+  int), modify by a quantity of this registry (new dimensions / same value and dimensions) or of the
+  default registry, remove.  A flag is `true` only if EVERY cell of the matrix shows the behaviour;
+* syntactically (`ast`), as an OBLIGATION (`registryEditsUnconditional`, decided by the kernel in
+  `active_step_assumptions`): in each of add / modify / remove the memo reset and the purge of the derived
+  entries are top-level statements that precede every use of `self.lut`, every write of the table is a
+  top-level statement followed by a top-level `self._unit_object_cache.clear()`, there is no `return`
+  (no early exit past the clear), every `in_base` call is followed by a memo reset in its block; the
+  purge helper deletes every recorded key; `_lookup_unit_symbol` records the key it writes back and all
+  three callers hand it the registry's set.  An invalidation placed under a condition (e.g. "only when
+  the value changed") makes the obligation false even if no probe of the matrix happens to hit it.
+  Anything the pass does not recognise counts as not established (fails closed).
 """
 import ast
 import os
+
+
+# ----------------------------------------------------------------------------------------------
+# behavioural matrix
 
 
 def _probe(unyt):
@@ -24,122 +34,268 @@ def _probe(unyt):
     from unyt.unit_registry import UnitRegistry
     import unyt.dimensions as D
 
-    def prepared():
+    def base():
         r = UnitRegistry()
         r.add("vfoo", 2.0, D.length, prefixable=True)
-        Unit("kvfoo", registry=r)
-        Unit("vfoo*s", registry=r)
-        assert "kvfoo" in r.lut and "kvfoo" in r._unit_object_cache and "vfoo*s" in r._unit_object_cache
+        r.add("vbar", 4.0, D.temperature, offset=1.5)
         return r
 
+    def s_unit_route():
+        r = base()
+        Unit("kvfoo", registry=r)
+        Unit("vfoo*s", registry=r)
+        return r, "vfoo"
+
+    def s_contains_route():
+        r = base()
+        assert "kvfoo" in r
+        Unit("vfoo**2", registry=r)
+        Unit("kvfoo/s", registry=r)
+        return r, "vfoo"
+
+    def s_getitem_route():
+        r = base()
+        r["Mvfoo"]
+        Unit("vfoo", registry=r)
+        return r, "vfoo"
+
+    def s_other_symbol():
+        # the edited symbol is NOT the one the derived entry hangs off, is not prefixable and has an offset
+        r = base()
+        Unit("vbar", registry=r)
+        Unit("kvfoo", registry=r)
+        Unit("vbar*vfoo", registry=r)
+        return r, "vbar"
+
+    states = {"unit-route": s_unit_route, "contains-route": s_contains_route,
+              "getitem-route": s_getitem_route, "other-symbol-offset": s_other_symbol}
+
+    def cur(r, sym):
+        return r.lut[sym]
+
     edits = {
-        "add": lambda r: r.add("vfoo", 5.0, D.time, prefixable=False),
-        "modify_float": lambda r: r.modify("vfoo", 3.0),
-        "modify_quantity": lambda r: r.modify("vfoo", unyt_quantity(3.0, "km", registry=r)),
-        "remove": lambda r: r.remove("vfoo"),
+        "add-new-data": lambda r, s: r.add(s, 5.0, D.time, prefixable=False),
+        "add-identical": lambda r, s: r.add(s, cur(r, s)[0], cur(r, s)[1], offset=cur(r, s)[2] or None, prefixable=cur(r, s)[4]),
+        "modify-float": lambda r, s: r.modify(s, 3.0),
+        "modify-float-same-value": lambda r, s: r.modify(s, cur(r, s)[0]),
+        "modify-int": lambda r, s: r.modify(s, 6),
+        "modify-quantity-own-new-dimensions": lambda r, s: r.modify(s, unyt_quantity(3.0, "km/s", registry=r)),
+        "modify-quantity-own-same-value": lambda r, s: r.modify(s, unyt_quantity(cur(r, s)[0], "m" if s == "vfoo" else "K", registry=r)),
+        "modify-quantity-own-same-value-new-dimensions": lambda r, s: r.modify(s, unyt_quantity(cur(r, s)[0], "s", registry=r)),
+        "modify-quantity-default-registry": lambda r, s: r.modify(s, unyt_quantity(3.0, "km")),
+        "remove": lambda r, s: r.remove(s),
     }
-    per = {}
-    for name, f in edits.items():
-        r = prepared()
-        f(r)
-        per[name] = {
-            "cache_cleared": ("kvfoo" not in r._unit_object_cache) and ("vfoo*s" not in r._unit_object_cache),
-            "derived_purged": "kvfoo" not in r.lut,
-            "memo_reset": r._unit_system_id is None,
-        }
-    ra = UnitRegistry()
-    ra.add("vfoo", 2.0, D.length, prefixable=True)
+    cells = {}
+    for sn, mk in states.items():
+        for en, f in edits.items():
+            r, sym = mk()
+            cached = set(r._unit_object_cache)
+            derived = {k for k in r.lut if k in ("kvfoo", "Mvfoo")}
+            assert cached and derived, (sn, cached, derived)
+            r.unit_system_id  # fill the memo: the edit has to reset it
+            assert r._unit_system_id is not None
+            try:
+                f(r, sym)
+                raised = None
+            except Exception as e:  # noqa: BLE001
+                raised = type(e).__name__
+            cells[f"{sn}|{en}"] = {
+                "raised": raised,
+                "cache_cleared": not (cached & set(r._unit_object_cache)),
+                "derived_purged": not (derived & set(r.lut)),
+                "memo_reset": r._unit_system_id is None,
+            }
+    ra = base()
     ida = ra.unit_system_id
-    rb = UnitRegistry()
-    rb.add("vfoo", 2.0, D.length, prefixable=True)
+    rb = base()
     Unit("kvfoo", registry=rb)
     idb = rb.unit_system_id
-    return per, ida == idb
+    return cells, ida == idb
+
+
+# ----------------------------------------------------------------------------------------------
+# ast obligation
+
+
+def _is_self_attr(n, attr):
+    return isinstance(n, ast.Attribute) and n.attr == attr and isinstance(n.value, ast.Name) and n.value.id == "self"
+
+
+def _mentions_lut(n):
+    return any(_is_self_attr(m, "lut") for m in ast.walk(n))
+
+
+def _is_memo_reset(st):
+    return (isinstance(st, ast.Assign) and len(st.targets) == 1 and _is_self_attr(st.targets[0], "_unit_system_id")
+            and isinstance(st.value, ast.Constant) and st.value.value is None)
+
+
+def _is_cache_clear(st):
+    if isinstance(st, ast.Expr) and isinstance(st.value, ast.Call) and isinstance(st.value.func, ast.Attribute):
+        f = st.value.func
+        return f.attr == "clear" and _is_self_attr(f.value, "_unit_object_cache") and not st.value.args
+    if isinstance(st, ast.Assign) and len(st.targets) == 1 and _is_self_attr(st.targets[0], "_unit_object_cache"):
+        return isinstance(st.value, ast.Dict) and not st.value.keys
+    return False
+
+
+def _is_lut_write(st):
+    if isinstance(st, (ast.Assign, ast.AugAssign)):
+        tg = st.targets if isinstance(st, ast.Assign) else [st.target]
+        return any(isinstance(t, ast.Subscript) and _is_self_attr(t.value, "lut") for t in tg)
+    if isinstance(st, ast.Delete):
+        return any(isinstance(t, ast.Subscript) and _is_self_attr(t.value, "lut") for t in st.targets)
+    if isinstance(st, ast.Expr) and isinstance(st.value, ast.Call) and isinstance(st.value.func, ast.Attribute):
+        f = st.value.func
+        return _is_self_attr(f.value, "lut") and f.attr in ("pop", "update", "clear", "setdefault", "popitem", "__setitem__", "__delitem__")
+    return False
+
+
+def _purge_helper_ok(fn):
+    """`for k in self._derived_symbols: self.lut.pop(k, None)` + `self._derived_symbols.clear()`, at most under
+    the single guard `if self._derived_symbols:`"""
+    body = [s for s in fn.body if not (isinstance(s, ast.Expr) and isinstance(s.value, ast.Constant))]
+    if len(body) == 1 and isinstance(body[0], ast.If) and _is_self_attr(body[0].test, "_derived_symbols") and not body[0].orelse:
+        body = body[0].body
+    loop = [s for s in body if isinstance(s, ast.For)]
+    if len(loop) != 1 or not _is_self_attr(loop[0].iter, "_derived_symbols") and not (
+            isinstance(loop[0].iter, ast.Call) and any(_is_self_attr(a, "_derived_symbols") for a in loop[0].iter.args)):
+        return False
+    lb = loop[0].body
+    if len(lb) != 1 or not (_is_lut_write(lb[0]) and not isinstance(lb[0], (ast.Assign, ast.AugAssign))):
+        return False
+    tail = body[body.index(loop[0]) + 1:]
+    cleared = any(isinstance(s, ast.Expr) and isinstance(s.value, ast.Call) and isinstance(s.value.func, ast.Attribute)
+                  and s.value.func.attr == "clear" and _is_self_attr(s.value.func.value, "_derived_symbols") for s in tail) or any(
+        isinstance(s, ast.Assign) and _is_self_attr(s.targets[0], "_derived_symbols") for s in tail)
+    return cleared and all(isinstance(s, (ast.For, ast.Expr, ast.Assign)) for s in body)
+
+
+def _edit_method_facts(fn, methods):
+    why = []
+    body = [s for s in fn.body if not (isinstance(s, ast.Expr) and isinstance(s.value, ast.Constant))
+            and not isinstance(s, (ast.Import, ast.ImportFrom))]
+    if any(isinstance(n, (ast.Return, ast.Try, ast.With, ast.While)) for n in ast.walk(fn)):
+        why.append("return/try/with/while inside the method")
+
+    def is_purge(st):
+        if isinstance(st, ast.Expr) and isinstance(st.value, ast.Call) and isinstance(st.value.func, ast.Attribute):
+            f = st.value.func
+            if isinstance(f.value, ast.Name) and f.value.id == "self" and f.attr in methods and not st.value.args:
+                return _purge_helper_ok(methods[f.attr])
+        return False
+
+    first_lut = next((i for i, s in enumerate(body) if _mentions_lut(s)), len(body))
+    resets = [i for i, s in enumerate(body) if _is_memo_reset(s)]
+    purges = [i for i, s in enumerate(body) if is_purge(s)]
+    if not resets or resets[0] > first_lut:
+        why.append("no top-level memo reset before the first use of self.lut")
+    if not purges or purges[0] > first_lut:
+        why.append("no top-level purge of the derived entries before the first use of self.lut")
+    # every write of the table is a top-level statement, and a top-level cache clear follows the last one
+    top_writes = [i for i, s in enumerate(body) if _is_lut_write(s)]
+    all_writes = [n for n in ast.walk(fn) if isinstance(n, ast.stmt) and _is_lut_write(n)]
+    if len(all_writes) != len(top_writes) or not top_writes:
+        why.append("a write of self.lut is nested in a compound statement (or there is none)")
+    clears = [i for i, s in enumerate(body) if _is_cache_clear(s)]
+    if not clears or not top_writes or clears[-1] < top_writes[-1]:
+        why.append("no top-level _unit_object_cache.clear() after the last write of self.lut")
+    # anything that can refill the memo (in_base hashes a unit of this registry) is followed by a reset in its block
+    for blk in [body] + [b for n in ast.walk(fn) if isinstance(n, ast.If) for b in (n.body, n.orelse)]:
+        for i, s in enumerate(blk):
+            own = [m for m in ast.walk(s) if isinstance(m, ast.Call) and isinstance(m.func, ast.Attribute) and m.func.attr.startswith("in_")]
+            if own and not isinstance(s, ast.If) and not any(_is_memo_reset(t) for t in blk[i + 1:]):
+                why.append("a call of in_base()/in_units() is not followed by a memo reset in its block")
+    return why
 
 
 def _ast_facts(repo):
-    src = open(os.path.join(repo, "unyt", "unit_registry.py"), encoding="utf-8").read()
-    tree = ast.parse(src)
-    cls = next(n for n in tree.body if isinstance(n, ast.ClassDef) and n.name == "UnitRegistry")
+    reg = ast.parse(open(os.path.join(repo, "unyt", "unit_registry.py"), encoding="utf-8").read())
+    obj = ast.parse(open(os.path.join(repo, "unyt", "unit_object.py"), encoding="utf-8").read())
+    cls = next(n for n in reg.body if isinstance(n, ast.ClassDef) and n.name == "UnitRegistry")
     methods = {n.name: n for n in cls.body if isinstance(n, ast.FunctionDef)}
-
-    def clears_cache(fn, depth=0):
-        for n in ast.walk(fn):
-            if isinstance(n, ast.Call) and isinstance(n.func, ast.Attribute):
-                f = n.func
-                if f.attr == "clear" and isinstance(f.value, ast.Attribute) and f.value.attr == "_unit_object_cache":
-                    return True
-                if depth < 2 and isinstance(f.value, ast.Name) and f.value.id == "self" and f.attr in methods and methods[f.attr] is not fn:
-                    if clears_cache(methods[f.attr], depth + 1):
-                        return True
-            if isinstance(n, ast.Assign):
-                for t in n.targets:
-                    if isinstance(t, ast.Attribute) and t.attr == "_unit_object_cache" and isinstance(n.value, ast.Dict) and fn.name != "__init__":
-                        return True
-        return False
-
-    def purges_in_loop(fn, depth=0):
-        for n in ast.walk(fn):
-            if isinstance(n, (ast.For, ast.While)):
-                for m in ast.walk(n):
-                    if isinstance(m, ast.Delete) and any(
-                        isinstance(t, ast.Subscript) and isinstance(t.value, ast.Attribute) and t.value.attr == "lut" for t in m.targets):
-                        return True
-                    if isinstance(m, ast.Call) and isinstance(m.func, ast.Attribute) and m.func.attr == "pop" and isinstance(m.func.value, ast.Attribute) and m.func.value.attr == "lut":
-                        return True
-            if depth < 2 and isinstance(n, ast.Call) and isinstance(n.func, ast.Attribute) and isinstance(n.func.value, ast.Name) \
-                    and n.func.value.id == "self" and n.func.attr in methods and methods[n.func.attr] is not fn:
-                if purges_in_loop(methods[n.func.attr], depth + 1):
-                    return True
-        return False
-
     out = {}
     for name in ("add", "modify", "remove"):
-        fn = methods[name]
-        out[name] = {"clears_cache": clears_cache(fn), "purges_derived_in_loop": purges_in_loop(fn)}
-    # does _lookup_unit_symbol still write the derived entry back into the table it was handed?
-    look = next(n for n in tree.body if isinstance(n, ast.FunctionDef) and n.name == "_lookup_unit_symbol")
-    wb = False
-    for n in ast.walk(look):
-        if isinstance(n, ast.Assign):
-            for t in n.targets:
-                if isinstance(t, ast.Subscript) and isinstance(t.value, ast.Name) and t.value.id == "unit_symbol_lut":
-                    wb = True
+        out[name] = _edit_method_facts(methods[name], methods)
+    # _lookup_unit_symbol: the write-back is recorded
+    look = next(n for n in reg.body if isinstance(n, ast.FunctionDef) and n.name == "_lookup_unit_symbol")
+    wb = rec = False
+    for blk in [n.body for n in ast.walk(look) if hasattr(n, "body") and isinstance(getattr(n, "body"), list)]:
+        for i, s in enumerate(blk):
+            if isinstance(s, ast.Assign) and any(isinstance(t, ast.Subscript) and isinstance(t.value, ast.Name)
+                                                 and t.value.id == look.args.args[1].arg for t in s.targets):
+                wb = True
+                third = look.args.args[2].arg if len(look.args.args) > 2 else None
+                for t in blk[i + 1:]:
+                    for m in ast.walk(t):
+                        if (third and isinstance(m, ast.Call) and isinstance(m.func, ast.Attribute) and m.func.attr == "add"
+                                and isinstance(m.func.value, ast.Name) and m.func.value.id == third):
+                            rec = True
     out["_lookup_unit_symbol_writes_back"] = wb
+    out["_lookup_unit_symbol_records"] = rec
+
+    # the three callers hand over the registry's set
+    def third_arg_is_set(call, owner):
+        return len(call.args) >= 3 and isinstance(call.args[2], ast.Attribute) and call.args[2].attr == "_derived_symbols" \
+            and isinstance(call.args[2].value, ast.Name) and call.args[2].value.id == owner
+
+    callers = []
+    for mname in ("__getitem__", "__contains__"):
+        calls = [m for m in ast.walk(methods[mname]) if isinstance(m, ast.Call) and isinstance(m.func, ast.Name)
+                 and m.func.id == "_lookup_unit_symbol"]
+        callers.append(bool(calls) and all(third_arg_is_set(c, "self") for c in calls))
+    ucls = next(n for n in obj.body if isinstance(n, ast.ClassDef) and n.name == "Unit")
+    new = next(n for n in ucls.body if isinstance(n, ast.FunctionDef) and n.name == "__new__")
+    calls = [m for m in ast.walk(new) if isinstance(m, ast.Call) and isinstance(m.func, ast.Name) and m.func.id == "_get_unit_data_from_expr"]
+    callers.append(bool(calls) and all(third_arg_is_set(c, "registry") for c in calls))
+    gud = next(n for n in obj.body if isinstance(n, ast.FunctionDef) and n.name == "_get_unit_data_from_expr")
+    third = gud.args.args[2].arg if len(gud.args.args) > 2 else None
+    inner = [m for m in ast.walk(gud) if isinstance(m, ast.Call) and isinstance(m.func, ast.Name)
+             and m.func.id in ("_get_unit_data_from_expr", "_lookup_unit_symbol")]
+    callers.append(bool(third) and bool(inner) and all(
+        len(c.args) >= 3 and isinstance(c.args[2], ast.Name) and c.args[2].id == third for c in inner))
+    out["callers_pass_the_set"] = all(callers)
     return out
 
 
 def generate(X):
     import unyt
 
-    per, id_skips = _probe(unyt)
-    clear = all(v["cache_cleared"] for v in per.values())
-    purge = all(v["derived_purged"] for v in per.values())
-    # the memo must be reset by every edit; for `modify(sym, quantity-of-this-registry)` the
-    # present code resets it BEFORE `in_base` recomputes it from the old table (flag memoResetLast)
-    memo = all(v["memo_reset"] for k, v in per.items() if k != "modify_quantity")
-    memo_last = per["modify_quantity"]["memo_reset"]
+    cells, id_skips = _probe(unyt)
+    # an edit that raised (a refused edit) tells nothing about the invalidation
+    ran = {k: v for k, v in cells.items() if v["raised"] is None}
+    clear = bool(ran) and all(v["cache_cleared"] for v in ran.values())
+    purge = all(v["derived_purged"] for v in cells.values())
+    memo = all(v["memo_reset"] for k, v in cells.items() if "modify-quantity-own" not in k)
+    memo_last = all(v["memo_reset"] for k, v in ran.items() if "modify-quantity-own" in k)
     facts = _ast_facts(X.REPO)
-    ast_clear = all(facts[m]["clears_cache"] for m in ("add", "modify", "remove"))
+    unconditional = (not facts["add"] and not facts["modify"] and not facts["remove"]
+                     and facts["_lookup_unit_symbol_records"] and facts["callers_pass_the_set"])
     b = lambda x: "true" if x else "false"  # noqa: E731
     text = (
         X.header("UnytModel.RegistryC12")
         + "namespace Unyt.Generated\n\n"
         + "/-- which memo layers `UnitRegistry.add/modify/remove` invalidate in the live source, and whether\n"
-        + "    `unit_system_id` skips written-back entries (single-step probes + `ast`, see\n"
+        + "    `unit_system_id` skips written-back entries (a matrix of single-edit probes, see\n"
         + "    tools/extract.d/c12_registry_cfg.py): `⟨clearCache, purgeDerived, idSkipsDerived, memoResetLast⟩` -/\n"
         + f"def registryCfg : Unyt.RegC12.Cfg := ⟨{b(clear)}, {b(purge)}, {b(id_skips)}, {b(memo_last)}⟩\n\n"
-        + "/-- `add`, `modify(sym, float)`, `remove` leave the `unit_system_id` memo reset (`invalidate`) -/\n"
+        + "/-- every edit form of the probe matrix leaves the `unit_system_id` memo reset (`invalidate`) -/\n"
         + f"def registryEditsResetMemo : Bool := {b(memo)}\n\n"
         + "/-- `_lookup_unit_symbol` writes the derived prefixed entry back into the table (ast) -/\n"
         + f"def lookupWritesBack : Bool := {b(facts['_lookup_unit_symbol_writes_back'])}\n\n"
+        + "/-- (ast) in add / modify / remove the memo reset and the purge are top-level statements before any use\n"
+        + "    of the table, every table write is top-level and followed by a top-level cache clear, no early exit,\n"
+        + "    `in_base` is followed by a memo reset; the write-back is recorded and every caller passes the set -/\n"
+        + f"def registryEditsUnconditional : Bool := {b(unconditional)}\n\n"
         + "end Unyt.Generated\n"
     )
     X.write_if_changed(os.path.join(X.GEN, "RegistryC12Cfg.lean"), text)
+    bad = {k: v for k, v in cells.items() if not (v["derived_purged"] and v["memo_reset"] and (v["cache_cleared"] or v["raised"]))}
     return {
         "cfg": {"clearCache": clear, "purgeDerived": purge, "idSkipsDerived": id_skips, "memoResetLast": memo_last},
         "memo_reset": memo,
-        "per_edit": per,
+        "unconditional": unconditional,
+        "probe_cells": len(cells),
+        "probe_cells_not_invalidating": bad,
         "ast": facts,
-        "ast_agrees_on_cache_clear": ast_clear == clear,
     }
